@@ -596,6 +596,87 @@ static void run_scenario(const scen_t *s)
 
 #include "c09_gradients.h"      /* space "gradients": gradient image vs pre-rendered copy */
 
+/* ---------------------------------------------------------------- space "trapezoid-shortcut"
+ * pixman_composite_trapezoids rasterises straight into the destination when it judges the source opaque (ADD, mask format = destination
+ * format, no clip): an opacity-based simplification outside pixman_image_composite32.  Sources that LOOK opaque in their stored pixels
+ * but are not (alpha map, read accessor) and sources that are opaque without being flagged so are drawn through the entry point and through
+ * the unsimplified route (pixman_add_trapezoids into a temporary mask + composite32); destinations must be equal bit for bit.  The same
+ * request with a clip that contains the whole destination (which disables the shortcut) is a third presentation. */
+#define TS_NSRC 10
+static const char *ts_srcname[TS_NSRC] = { "solid-opaque", "solid-alpha-80", "1x1-a8r8g8b8-ff-repeat", "1x1-a8r8g8b8-ff-repeat+alpha-map-80", "1x1-a8r8g8b8-ff-repeat+read-accessor(alpha 40)",
+    "1x1-x8r8g8b8-repeat", "1x1-x8r8g8b8-repeat+alpha-map-80", "4x4-a8r8g8b8-all-ff-repeat", "4x4-x8r8g8b8-repeat+alpha-map(ramp)", "1x1-a8-ff-repeat+alpha-map-80" };
+static uint32_t ts_acc_read(const void *p, int size) { (void)size; return (*(const uint32_t *)p & 0x00ffffffu) | 0x40000000u; }
+static void ts_acc_write(void *p, uint32_t v, int size) { (void)size; *(uint32_t *)p = v; }
+typedef struct { pixman_image_t *img, *amap; uint32_t px[16]; uint32_t apx[16]; } ts_src_t;
+static void ts_make_src(ts_src_t *t, int k)
+{
+    memset(t, 0, sizeof *t);
+    pixman_color_t c0 = { 0xffff, 0x8080, 0x4040, 0xffff }, c1 = { 0x8080, 0x4040, 0x2020, 0x8080 };
+    for (int i = 0; i < 16; i++) { t->px[i] = 0xff804020u; t->apx[i] = 0x80808080u; }
+    switch (k) {
+    case 0: t->img = pixman_image_create_solid_fill(&c0); return;
+    case 1: t->img = pixman_image_create_solid_fill(&c1); return;
+    case 2: case 3: case 4: t->img = pixman_image_create_bits(PIXMAN_a8r8g8b8, 1, 1, t->px, 4); break;
+    case 5: case 6: t->img = pixman_image_create_bits(PIXMAN_x8r8g8b8, 1, 1, t->px, 4); break;
+    case 7: t->img = pixman_image_create_bits(PIXMAN_a8r8g8b8, 4, 4, t->px, 16); break;
+    case 8: t->img = pixman_image_create_bits(PIXMAN_x8r8g8b8, 4, 4, t->px, 16); break;
+    default: t->px[0] = 0xffffffffu; t->img = pixman_image_create_bits(PIXMAN_a8, 1, 1, t->px, 4); break;
+    }
+    pixman_image_set_repeat(t->img, PIXMAN_REPEAT_NORMAL);
+    if (k == 3 || k == 6 || k == 9) { t->amap = pixman_image_create_bits(PIXMAN_a8, 1, 1, t->apx, 4); pixman_image_set_alpha_map(t->img, t->amap, 0, 0); }
+    if (k == 8) { for (int i = 0; i < 16; i++) ((uint8_t *)t->apx)[(i / 4) * 4 + i % 4] = (uint8_t)(0x10 + 0x0f * i); t->amap = pixman_image_create_bits(PIXMAN_a8, 4, 4, t->apx, 4); pixman_image_set_alpha_map(t->img, t->amap, 0, 0); }
+    if (k == 4) pixman_image_set_accessors(t->img, ts_acc_read, ts_acc_write);
+}
+static void ts_free_src(ts_src_t *t) { pixman_image_unref(t->img); if (t->amap) pixman_image_unref(t->amap); }
+typedef struct { const int *cfgs; int ncfg; } ts_ctx;
+static void trapshort_case(uint64_t idx, void *vctx)
+{
+    const ts_ctx *c = vctx;
+    static const pixman_format_code_t dfm[3] = { PIXMAN_a8, PIXMAN_a4, PIXMAN_a1 };
+    static const char *dfn[3] = { "a8", "a4", "a1" };
+    static const pixman_op_t ops[2] = { PIXMAN_OP_ADD, PIXMAN_OP_OVER };
+    int dims[6] = { TS_NSRC, 3, 3, 2, 3, c->ncfg }, v[6]; vf_decode(idx, dims, 6, v);
+    int sk = v[0], di = v[1], mi = v[2], oi = v[3], li = v[4];
+    enum { W = 9, H = 5 };
+    static const pixman_trapezoid_t TL[3][2] = {
+        { { 1 << 16, 4 << 16, { { 1 << 16, 1 << 16 }, { 1 << 16, 4 << 16 } }, { { 7 << 16, 1 << 16 }, { 7 << 16, 4 << 16 } } }, { 0, 0, { { 0, 0 }, { 0, 0 } }, { { 0, 0 }, { 0, 0 } } } },
+        { { 0x8000, 0x48000, { { 0x18000, 0 }, { 0x4000, 0x50000 } }, { { 0x58000, 0 }, { 0x8c000, 0x50000 } } }, { 0x20000, 0x30000, { { 0, 0x20000 }, { 0, 0x30000 } }, { { 0x90000, 0x20000 }, { 0x90000, 0x30000 } } } },
+        { { -0x10000, 0x70000, { { -0x20000, -0x10000 }, { 0x30000, 0x70000 } }, { { 0x60000, -0x10000 }, { 0xb0000, 0x70000 } } }, { 0, 0, { { 0, 0 }, { 0, 0 } }, { { 0, 0 }, { 0, 0 } } } } };
+    int nt = li == 1 ? 2 : 1;
+    ph_set_cfg(c->cfgs[v[5]]);
+    int stride = 16; uint8_t buf[3][16 * H], init[16 * H];
+    for (int i = 0; i < 16 * H; i++) init[i] = (uint8_t)(vf_mix((uint64_t)i, 77) & (di == 0 ? 0x7f : 0xff));
+    ts_src_t s; ts_make_src(&s, sk);
+    for (int pres = 0; pres < 3; pres++) {
+        memcpy(buf[pres], init, sizeof init);
+        pixman_image_t *dst = pixman_image_create_bits(dfm[di], W, H, (uint32_t *)buf[pres], stride);
+        if (pres == 0) pixman_composite_trapezoids(ops[oi], s.img, dst, dfm[mi], 0, 0, 0, 0, nt, TL[li]);
+        else if (pres == 1) {
+            pixman_region32_t r; pixman_region32_init_rect(&r, 0, 0, W, H); pixman_image_set_clip_region32(dst, &r); pixman_region32_fini(&r);
+            pixman_composite_trapezoids(ops[oi], s.img, dst, dfm[mi], 0, 0, 0, 0, nt, TL[li]);
+        } else {
+            uint8_t mbuf[16 * H]; memset(mbuf, 0, sizeof mbuf);
+            pixman_image_t *m = pixman_image_create_bits(dfm[mi], W, H, (uint32_t *)mbuf, stride);
+            pixman_add_trapezoids(m, 0, 0, nt, TL[li]);
+            pixman_image_composite32(ops[oi], s.img, m, dst, 0, 0, 0, 0, 0, 0, W, H);
+            pixman_image_unref(m);
+        }
+        pixman_image_unref(dst);
+    }
+    ts_free_src(&s);
+    vf_count_libcalls(4); vf_count_eval(1);
+    if (memcmp(buf[2], init, sizeof init)) vf_count_nontrivial(1);
+    if (!vf_in_confirm) vf_outcome(vf_hash64(buf[2], sizeof init, (uint64_t)di));
+    char cfgn[64];
+    for (int pres = 0; pres < 2; pres++) if (memcmp(buf[pres], buf[2], sizeof init)) {
+        int at = 0; for (int i = 0; i < 16 * H; i++) if (buf[pres][i] != buf[2][i]) { at = i; break; }
+        vf_violation("c09-trapezoid-entry-differs-from-mask-route", "pixman_composite_trapezoids(op=%s, source %s, destination %s %dx%d%s, mask_format %s, trapezoid list %d) PIXMAN_DISABLE=[%s]: byte %d of row %d is %#04x, "
+                     "rasterising into a temporary mask and compositing it gives %#04x (initial %#04x)", oi ? "OVER" : "ADD", ts_srcname[sk], dfn[di], W, H, pres ? " clipped to its own extents" : "", dfn[mi], li,
+                     ph_cfg_name(c->cfgs[v[5]], cfgn, sizeof cfgn), at % 16, at / 16, buf[pres][at], buf[2][at], init[at]);
+        return;
+    }
+}
+
 typedef struct { int dims[10]; const int *cfgs; } ctx_t;
 static void scen_case(uint64_t idx, void *vctx)
 {
@@ -777,6 +858,8 @@ int main(int argc, char **argv)
     ix_ctx xc = { c.cfgs, ncfg };
     if (!only || !strcmp(only, "indexed")) vf_space_run("indexed", (uint64_t)2 * 3 * 2 * 4 * RC_NOPS * ncfg, indexed_case, &xc);
     fd_ctx fc = { c.cfgs, ncfg };
+    ts_ctx tc = { c.cfgs, ncfg };
+    if (!only || !strcmp(only, "trapezoid-shortcut")) vf_space_run("trapezoid-shortcut", (uint64_t)TS_NSRC * 3 * 3 * 2 * 3 * ncfg, trapshort_case, &tc);
     if (!only || !strcmp(only, "solid-fill")) vf_space_run("solid-fill", (uint64_t)3 * FD_NALPHA * FD_NFMT * RC_NOPS * ncfg, fill_case, &fc);
 
     int cells = 0, cells_possible = 0;
